@@ -124,4 +124,16 @@ theorem run_safe : RunSafeStatement := by
     | false => rfl
     | true => exact absurd ⟨msg, rfl, hs⟩ this
 
+/-! ## the hypotheses are needed, the conclusions are not vacuous -/
+
+/-- the panic residues of the model do satisfy `IsPanic` -/
+theorem IsPanic_witness : IsPanic (errP (.goErr "panic: args")) :=
+  ⟨_, rfl, by decide +kernel⟩
+
+/-- without `safe` the step theorem fails: code that is not `safe` does panic -/
+theorem exec_unsafe_witness (m : MS) :
+    safe [.getConst (.atom "a"), .exit] 0 0 [] = false ∧
+    ∃ p, exec 1 [.getConst (.atom "a"), .exit] [] .done [] [] [] 0 m = some (p, m) ∧ IsPanic p :=
+  ⟨by decide, _, by simp only [exec], IsPanic_witness⟩
+
 end PrologVerif.ExecSafe
